@@ -603,6 +603,34 @@ example : [postFrom [] [] "https://a.example.com",
     = [(true, false, false, true), (false, true, true, true), (false, true, false, false), (false, false, false, true)] := by
   decide +kernel
 
+/-- **The origin decision has no memory.** `originGate cfg q` is a function of the configuration and
+    the request alone (by `origin_gate_exact`: of the configured strings, the request's scheme, Host,
+    Origin and Referer), and it is all that decides: in ANY state — whatever requests came before, to
+    whatever Host, with whatever Origin, accepted or not — an unsafe request (not exempted by `Next`)
+    for which the gate is shut is turned away, with the gate's error and without a cookie. So an
+    origin that an earlier request to another Host presented as its own gains nothing later. -/
+theorem origin_decision_stateless (cfg : Cfg) (gen sgen : Nat → Bytes) (st : St) (q : Req)
+    (hnext : skipped cfg q = false) (hunsafe : isSafe q.method = false) (hgate : originGate cfg q = false) :
+    (handle cfg gen sgen st q).2.pass = false ∧ (handle cfg gen sgen st q).2.status = cfg.eh (gateErr cfg q) ∧
+    (handle cfg gen sgen st q).2.ck = none := by
+  rw [handle_of_not_skipped cfg gen sgen st q hnext]
+  exact handleCore_gate_shut cfg gen sgen st q hunsafe hgate
+
+/-- non-vacuity: a request to `Host: evil.test` presenting `http://evil.test` as its own origin passes
+    the gate (and fails for want of a token); the same Origin with a valid token to another Host stays
+    refused afterwards, as it was before; likewise over https by Referer -/
+example :
+    let own : Req := { post [] [] [] with host := b "evil.test", origin := b "http://evil.test" }
+    let ownRef : Req := { post [] [] [] with host := b "evil.test", https := true, referer := b "https://evil.test/x" }
+    let viaRef : Req := { post (genT 0) [] (genT 0) with https := true, referer := b "https://evil.test/x" }
+    originGate (cfgT .storage false) own = true ∧ originGate (cfgT .storage false) ownRef = true ∧
+    passes (cfgT .storage false)
+      [.req (get [] []), .req (postFrom (genT 0) (genT 0) "http://evil.test"), .req own, .req own,
+       .req (postFrom (genT 0) (genT 0) "http://evil.test"), .req ownRef, .req viaRef,
+       .req (post (genT 0) [] (genT 0))]
+    = [some true, some false, some false, some false, some false, some false, some false, some true] := by
+  decide +kernel
+
 /-- **The URL reader is the transcription of `net/url`**: the scheme it reports for any header text
     holds no colon (formerly an assumption on a parameter, checked per case by the driver). -/
 theorem url_scheme_no_colon (q : Req) : 58 ∉ q.ourl.scheme ∧ 58 ∉ q.rurl.scheme :=
